@@ -906,7 +906,7 @@ pub fn run(args: &mut Args) {
         std::env::set_var("RTEN_NUM_THREADS", "1");
         std::env::set_var("RUST_BACKTRACE", "0");
     }
-    let root = tree::fresh_root(&format!("s{}", args.shard));
+    let root = tree::fresh_root(&format!("s{}", args.shard), args.out.as_deref());
     let tree = Tree::spec(&root);
     let notes = tree.create();
     std::env::set_current_dir(&root).expect("chdir to scratch root");
@@ -1020,7 +1020,7 @@ pub fn bench(args: &Args) {
     unsafe {
         std::env::set_var("RTEN_NUM_THREADS", "1");
     }
-    let root = tree::fresh_root("bench");
+    let root = tree::fresh_root("bench", None);
     let tree = Tree::spec(&root);
     tree.create();
     std::env::set_current_dir(&root).unwrap();
